@@ -258,12 +258,32 @@ def _replay_chunk(args):
 
 def pmap(fn, chunks):
     """Run fn over chunks in forked worker processes (the implementation is imported in each)."""
+    import gc
     import multiprocessing as mp
+    from concurrent.futures import ProcessPoolExecutor
+    from concurrent.futures.process import BrokenProcessPool
     if len(chunks) <= 1:
         return [fn(c) for c in chunks]
-    ctx = mp.get_context("fork")
-    with ctx.Pool(min(NCPU, len(chunks))) as pool:
-        return pool.map(fn, chunks)
+    # forked workers share the parent's heap copy-on-write; a collector pass in a worker would touch (and so copy)
+    # every container of a multi-gigabyte parent: freeze the heap for the duration, and cap the number of workers
+    # by the memory that is left should they copy it all the same
+    nproc = min(NCPU, len(chunks))
+    try:
+        rss = int(open("/proc/self/statm").read().split()[1]) * os.sysconf("SC_PAGE_SIZE")
+        avail = [int(l.split()[1]) * 1024 for l in open("/proc/meminfo") if l.startswith("MemAvailable")][0]
+        if rss > (1 << 30):
+            nproc = max(2, min(nproc, int(avail * 0.6 // rss)))
+    except Exception:
+        pass
+    gc.collect()
+    gc.freeze()
+    try:
+        with ProcessPoolExecutor(max_workers=nproc, mp_context=mp.get_context("fork")) as ex:
+            return list(ex.map(fn, chunks))
+    except BrokenProcessPool:
+        raise MachineryError("a replay worker process died (out of memory?)")
+    finally:
+        gc.unfreeze()
 
 
 def chunked(seq, n):
